@@ -22,7 +22,7 @@ CLAIMS = {
  "C15": ("mapgraph", "Clone modelled with clone tags (one clone per key and value object), followed by an operation on either copy and the drop of either copy; TLC checks independence and conservation, the replay checks clone counts per source object, equality, the untouched copy and the ledger."),
  "C04": ("micro+mapgraph", "MapMicro.tla models slot memory at callback granularity (every slot uninit/live/moved/dropped, len, locals, the half-built clone / collection); TLC explores every operation from every state with a panic injected at every callback (and the unwinding that follows) and checks Safe / IdleWellFormed. Every behaviour TLC prints is replayed into the real crate with the panic injected at that callback: the safety predicate (no double destruction, no use of dead/uninitialised data, survivors well-formed, usable, droppable) gates; conformance of the code's callback sequence, outcome and survivors to the model is reported as drift (0 on this tree). A second sweep injects at every callback the CODE makes for every transition of the macro graph."),
  "C17": ("micro+mapgraph", "MapMicro.tla with Adv = TRUE: every key comparison may return either truth value; TLC explores the complete decision tree of every operation (incl. the index stack / split_at_mut logic of get_disjoint_mut with its bounds-check panic edges) and checks Safe (slot accesses inside the live prefix, distinct live slots handed out as &mut, len <= Cap, nothing destroyed twice). Every complete path is replayed into the real crate with a scripted Eq; safety predicate gates, path conformance (comparisons asked, outcome, survivors) is drift. A second sweep enumerates the real code's own decision tree depth-first for every macro-graph transition."),
- "C20": ("mapgraph", "Ser/De modelled as announce len + emit in slot order / fold of inserts; replay round-trips through serde_json and bincode (legacy, fixed length prefix = announced length) into targets of capacity len, N and N+1."),
+ "C20": ("mapgraph", "Ser/De modelled as announce len + emit in slot order / fold of inserts; replay round-trips through serde_json and bincode (legacy, fixed length prefix = announced length) into targets of capacity len, N and N+1, and decodes hand-made streams with repeated keys / one key too many (conformance to the fold of inserts is reported as drift)."),
 }
 NA = {
 }
@@ -47,7 +47,7 @@ TECH["C14"] = _B + "; plus a TLAPS proof, for operands of any size and slot orde
 TECH["C08"] = _B + "; plus a TLAPS proof, for operands of any size, that the filtered-slot-iterator loop behind difference / intersection / union / symmetric_difference yields exactly the mathematical result without repeats and that the predicates tell the truth (spec/MapProofAlg.tla, spec/MapProofEq.tla)"
 TECH["C04"] = "callback-granular TLA+ model (MapMicro.tla) model-checked with TLC with a panic injected at every callback; every model behaviour replayed into the real crate (conformance), plus an injection sweep over the code's own callbacks; plus a TLAPS proof for any capacity that the live prefix is well-formed after every step at which user code can run (spec/MapProofPanic.tla)"
 TECH["C17"] = "callback-granular TLA+ model (MapMicro.tla, adversarial Eq) model-checked with TLC over every outcome of every key comparison; every model path replayed into the real crate with a scripted Eq (conformance), plus enumeration of the code's own decision tree; debug, release and AddressSanitizer builds; plus a TLAPS proof for any capacity that under arbitrary scan outcomes every slot index used stays inside the live prefix / capacity (spec/MapProofAdv.tla)"
-NOTE = "exhaustive within the TLC constants recorded in the evidence (capacities 0..2 quick, plus 3 thorough; 3-4 key classes; 2 distinguishable key objects per class; 2 value contents); trace validation samples (does not exhaust) capacities up to 300; element types are the harness' instrumented plain-old-data Key/Val plus a dozen other element shapes (zero-sized with and without destructor, Copy, heap-owning, mixed drop glue, large, wide key, Clone without Drop, distinguishable equal keys, PathBuf probed by &Path, containers of 80-130 KiB) for the equality-visible part; TLC, rustc and std trusted; the harness holds no model logic, all expected values come from TLC's emitted transitions"
+NOTE = "exhaustive within the TLC constants recorded in the evidence (capacities 0..2 quick plus one capacity-3 / capacity-4 slice of the position-dependent families, 3 and 4 in full thorough; 3-5 key classes; 2 distinguishable key objects per class; 2 value contents); trace validation samples (does not exhaust) capacities up to 300 and, through a window of watched keys, one container of 65 600 entries; element types are the harness' instrumented plain-old-data Key/Val plus a dozen other element shapes (zero-sized with and without destructor, Copy, heap-owning, mixed drop glue, large, wide key, Clone without Drop, distinguishable equal keys, PathBuf probed by &Path, containers of 80-130 KiB) for the equality-visible part; TLC, rustc and std trusted; the harness holds no model logic, all expected values come from TLC's emitted transitions"
 
 def main():
     checks = []
@@ -83,7 +83,7 @@ def main():
              "kind_free_text": "callback-granular TLA+ model of slot memory (panic at every callback / every outcome of every key comparison), every behaviour replayed into the real crate"},
             {"name": "tracecheck", "path": "spec/Trace.tla (over spec/Dict.tla) + harness/src/trace.rs",
              "serves_properties": ["C01", "C02", "C04", "C05", "C06", "C07", "C08", "C09", "C10", "C11", "C12", "C13", "C14", "C16", "C18"],
-             "kind_free_text": "direction B: long random executions of the real crate (capacities up to 300) recorded per call and validated by TLC against the ideal dictionary"},
+             "kind_free_text": "direction B: long random executions of the real crate (capacities up to 300, and a windowed history at capacity 65 600) recorded per call and validated by TLC against the ideal dictionary"},
             {"name": "mapgraph", "path": "spec/MapSpec.tla + harness/src/replay.rs", "serves_properties": sorted(CLAIMS),
              "kind_free_text": "TLC state graph of one container (Map.tla/MapOps.tla refining Dict.tla) emitted as labelled transitions and replayed into the real crate"},
         ],
